@@ -471,6 +471,21 @@ def run_c18(rep: Report, tier: str) -> None:
             continue
         if back != p or plat_iface.project_platform(back) != c:
             rep.violation(f"C18:platform({c['os']},{c['arch']}):roundtrip", f"Platform.parse({txt!r}) = {back} != {p}", {"config": c, "text": txt})
+    # ---- every documented name (PlatformTags.NamesSpec: aliases, grid names, architecture spellings) resolves in the
+    #      code to the platform the specification resolves it to
+    for st in run_grid(rep, ["AllNamesResolve", "AliasesResolve", "ResolvedRoundTrip"], GRID, spec="NamesSpec", want_dump=True):
+        if st["phase"] != "resolved":
+            continue
+        n += 1
+        txt = plat_iface.render_name(st["tags"])
+        try:
+            got = plat_iface.project_platform(Platform.parse(txt))
+        except Exception as e:  # noqa: BLE001
+            rep.violation(f"C18:resolve({st['tags'][0]}):raises-{type(e).__name__}", f"Platform.parse({txt!r}): {e!r}", {"text": txt, "specification": st["p"]})
+            continue
+        if got != st["p"]:
+            kind = "alias" if len(st["tags"]) <= 3 and not any(isinstance(t, int) for t in st["tags"]) and st["tags"][0] != "windows" else "name"
+            rep.violation(f"C18:resolve({kind}:{st['tags'][0]}):wrong-target", f"Platform.parse({txt!r}) = {got}; specification {st['p']}", {"text": txt, "specification": st["p"]})
     # multi-digit versions / architectures with underscores / aliases / choices()
     extra = []
     for os_, major, minor, arch in itertools.product(["manylinux", "musllinux", "macos"], [1, 2, 10, 12, 123], [0, 5, 17, 100], ["x86_64", "aarch64", "arm64", "ppc64le", "s390x", "i686", "amd64"]):
